@@ -489,6 +489,16 @@ impl<'tcx> Ex<'tcx> {
         if tcx.is_foreign_item(did) {
             d.set("foreign", J::Bool(true));
         }
+        if let DefKind::Ctor(of, _) = tcx.def_kind(did) {
+            // a tuple-struct / tuple-variant constructor used as a function
+            d.set("ctor", J::s(format!("{:?}", of)));
+            let parent = tcx.parent(did);
+            if let rustc_hir::def::CtorOf::Variant = of {
+                let en = tcx.parent(parent);
+                let adt = tcx.adt_def(en);
+                d.set("ctor_variant", J::UInt(adt.variant_index_with_id(parent).as_usize() as u128));
+            }
+        }
         // resolve
         let can_resolve = !args.has_non_region_param() || !self.mono;
         if can_resolve {
